@@ -35,6 +35,23 @@ def handle : List String → String
         | .error e => s!"err {e}"
       | none => "bad-op"
     | _ => "bad-op"
+  | ["sgtext", txt] =>
+    match parse txt.toList with
+    | some ν => let r := sgnumber ν; s!"ok {showRat r.1} {showRat r.2}"
+    | none => "err Value"
+  | ["hedgetext", kw, txt, sq] =>
+    match parse txt.toList, parseRat sq with
+    | some ν, some sq =>
+      match checked (hedge Pun.Gen.hedgeTable (kw.replace "_" " ") ν sq) with
+      | .ok (some iv) => s!"ok {showEB iv.lo} {showEB iv.hi}"
+      | .ok none => "none"
+      | .error e => s!"err {e}"
+    | none, some _ => "err Value"
+    | _, none => "bad-op"
+  | ["roundtrip", txt] =>
+    match parse txt.toList with
+    | some ν => String.ofList (render ν)
+    | none => "err Value"
   | "val" :: rest =>
     match parseNumeral rest with
     | some (ν, []) => s!"ok {showRat ν.val} {decipherD ν}"
